@@ -60,6 +60,19 @@ def lin_diff(actual, expected):
         return ("unknown", "no term")
     if actual == expected:
         return ("equal",)
+    # a finite clamp inside the value: equal to the definition only inside the bounds
+    cl = [a for a in actual.all_atoms() if isinstance(a, T.App) and a.op == "clamp"]
+    if cl and not any(isinstance(a, T.App) and a.op == "clamp" for a in expected.all_atoms()):
+        def strip(a):
+            if isinstance(a, T.App) and a.op == "clamp":
+                return T.P(a.args[0])
+            return None
+        try:
+            if T.subst(actual, strip) == expected:
+                b = cl[0].args[1:]
+                return ("clamped", "%r" % (cl[0].args[0],), "%r" % (b,))
+        except Exception:
+            pass
     sa, se = actual.syms(), expected.syms()
     sa = {s for s in sa if not s.startswith("lit:")}
     se = {s for s in se if not s.startswith("lit:")}
@@ -86,7 +99,7 @@ def diff_verdict(d):
     """True (pass) / False (definite) / None (undecided) from lin_diff outcome."""
     if d[0] == "equal":
         return True
-    if d[0] in ("coeff", "dep-missing", "dep-extra"):
+    if d[0] in ("coeff", "dep-missing", "dep-extra", "clamped"):
         return False
     return None
 
@@ -98,6 +111,8 @@ def diff_msg(d):
         return "does not depend on %s" % ", ".join(d[1])
     if d[0] == "dep-extra":
         return "depends on %s, which it must not" % ", ".join(d[1])
+    if d[0] == "clamped":
+        return "equals the definition only while %s stays inside the clamp bounds %s; beyond them the value saturates" % (d[1], d[2])
     if d[0] == "unknown":
         return d[1]
     return "equal"
